@@ -4,12 +4,12 @@ use cgmath::prelude::*;
 use cgmath::{Point1, Point2, Point3, Vector1, Vector2, Vector3};
 use serde_json::json;
 
-use crate::clause;
-use crate::conv::*;
-use crate::fw::{Case, Clause, Extra, RunCfg};
-use crate::gen::{self, Rng, Tier};
-use crate::model::*;
-use crate::sc::{Ck, Sc};
+use cgv_core::clause;
+use cgv_core::conv::*;
+use cgv_core::fw::{Case, Clause, Extra, RunCfg};
+use cgv_core::gen::{self, Rng, Tier};
+use cgv_core::model::*;
+use cgv_core::sc::{Ck, Sc};
 
 fn map2<S: Sc, const N: usize>(a: V<S, N>, b: V<S, N>, f: impl Fn(S, S) -> S) -> V<S, N> {
     let mut o = a;
@@ -44,7 +44,12 @@ macro_rules! dim {
                 }
                 c.push_r(&[gen::nz_rat(rng, tier)]);
                 // centroid list
-                let k = rng.range(1, 9);
+                // every non-empty list length: mostly short, sometimes long (odd and even, beyond any block size)
+                let k = match rng.below(10) {
+                    0..=5 => rng.range(1, 9),
+                    6..=8 => rng.range(10, 40),
+                    _ => rng.range(41, 130),
+                };
                 c.push_k(&[k]);
                 for _ in 0..k {
                     let (v, _) = gen::rats(rng, tier, N);
@@ -226,7 +231,7 @@ pub fn native_ints(cfg: &RunCfg, extra: &mut Extra) {
                 if !ok_all {
                     continue;
                 }
-                let r = crate::fw::catch(|| {
+                let r = cgv_core::fw::catch(|| {
                     let mut bad: Option<String> = None;
                     let mut set = |c: bool, m: &str| {
                         if !c && bad.is_none() {
@@ -259,7 +264,7 @@ pub fn native_ints(cfg: &RunCfg, extra: &mut Extra) {
                     Ok(b) => b,
                     Err(pn) => Some(format!("unexpected panic on overflow-free inputs: {pn}")),
                 };
-                let mut h = crate::gen::hash_str($tag);
+                let mut h = cgv_core::gen::hash_str($tag);
                 for k in 0..3 {
                     h = (h ^ p[k] as u64).wrapping_mul(0x100000001b3);
                     h = (h ^ v[k] as u64).wrapping_mul(0x100000001b3);
@@ -322,5 +327,5 @@ pub fn clauses() -> Vec<Clause> {
     ]
 }
 
-pub const RULE: &str = "two points, two vectors with non-zero components and a non-zero scalar of small rationals per dimension 1-3, plus a list of 1-9 points for the centroid; homogeneous: a point and a non-zero factor k. Non-trivial = points with non-zero pairwise distinct components; distinct = distinct input tuples. Native part: Point3/2/1 over i8,u8,i32,u32,i64 for the additive laws, operands placed so that the i128 model proves no overflow.";
+pub const RULE: &str = "two points, two vectors with non-zero components and a non-zero scalar of small rationals per dimension 1-3, plus a list of 1-130 points for the centroid (60% 1-9, 30% 10-40, 10% 41-130); homogeneous: a point and a non-zero factor k. Non-trivial = points with non-zero pairwise distinct components; distinct = distinct input tuples. Native part: Point3/2/1 over i8,u8,i32,u32,i64 for the additive laws, operands placed so that the i128 model proves no overflow.";
 pub const ASSUME: &[&str] = &["exact rational arithmetic in i128", "integer scalars: only the additive laws, only on overflow-free operands"];
